@@ -93,6 +93,8 @@ impl Method for SWMA {
 	#[inline]
 	fn next(&mut self, &value: &Self::Input) -> Self::Output {
 		if self.right_window.is_empty() {
+			// `length` is 1: the only weight is 1
+			self.numerator = value;
 			return value;
 		}
 
